@@ -231,3 +231,30 @@ Proof.
   exists {| p_bonded := 100; p_bonded_ledger := 100; p_notbonded := 50; p_notbonded_ledger := 50; p_dispute := 10 |}, 10.
   unfold pinv, pstep_return_as_found. cbn. split; [lia|]. split; [lia|]. lia.
 Qed.
+
+(* ---- the slack of the pools over the ledger (C05) ------------------------------------------------------- *)
+Definition pslack (s : pstate) : Z := (p_bonded s - p_bonded_ledger s) + (p_notbonded s - p_notbonded_ledger s).
+
+(* every operation keeps the slack, except a return, which adds exactly its dust; coins only move between
+   the pools, the users and the dispute escrow *)
+Theorem pstep_slack s o s' : pstep s o = Some s' ->
+  pslack s' = pslack s + match o with PReturn _ dust _ => dust | _ => 0 end /\
+  0 <= match o with PReturn _ dust _ => dust | _ => 0 end.
+Proof.
+  unfold pslack. intros H.
+  destruct o as [a|a|a|t|t|a|a|amount dust tb]; cbn [pstep] in H;
+    repeat match type of H with
+           | (if ?c then _ else _) = _ => destruct c eqn:?; [|discriminate]
+           end;
+    try (injection H as <-; cbn; lia).
+  match goal with E : (_ && _ && _) = true |- _ => apply andb_prop in E; destruct E as [E _]; apply andb_prop in E; destruct E as [E _]; apply Z.leb_le in E end.
+  destruct tb; injection H as <-; cbn; lia.
+Qed.
+
+Theorem prun_slack_monotone ops : forall s, pslack s <= pslack (fold_left pstep_total ops s).
+Proof.
+  induction ops as [|o t IH]; intros s; cbn [fold_left]; [lia|].
+  etransitivity; [|apply IH]. unfold pstep_total. destruct (pstep s o) eqn:E; [|lia].
+  destruct (pstep_slack _ _ _ E) as [H1 H2]. lia.
+Qed.
+
